@@ -87,6 +87,16 @@ void fpBin(const json &in, json &out) {
           cmpSpline(acc, a + b, in.at("E").at("add"), in.at("S").at("add"), "add");
           cmpSpline(acc, a - b, in.at("E").at("sub"), in.at("S").at("sub"), "sub");
           cmpSpline(acc, a * b, in.at("E").at("mul"), in.at("S").at("mul"), "mul");
+          try {  // second pass with full-mantissa coefficients (see vh_fp.h)
+            const Grid<Rat> gr = mkGrid<Rat>(ja.at("g"));
+            const auto ap = perturbedSpline(a, caseKey(in)), bp = perturbedSpline(b, caseKey(in) + 7);
+            const auto ar = exactTwin(ap, gr);
+            const auto br = exactTwin(bp, gr);
+            cmpSplineTwin(acc, ap + bp, ar + br, in.at("S").at("add"), "padd");
+            cmpSplineTwin(acc, ap - bp, ar - br, in.at("S").at("sub"), "psub");
+            cmpSplineTwin(acc, ap * bp, ar * br, in.at("S").at("mul"), "pmul");
+          } catch (const RatError &) {
+          }
         }
       });
     });
